@@ -411,6 +411,7 @@ func checkWinnerTable(c *Ctx, sp interface{}, fd *ast.FuncDecl) {
 	if t0, ok := table["0"]; ok {
 		c.Check("R3.2", "no candidate: the state is attributed to nothing", sw.Pos(), t0 == "nothing", "decision is "+t0)
 	}
+	checkWinnerPaths(c, info, loop, candExpr, strVar)
 	// conflicts make the whole construction fail: after the loop, ErrorOrNil is tested and returned
 	failOK := false
 	for _, st := range fd.Body.List {
@@ -648,4 +649,345 @@ func handlesBackslash(c *Ctx, fo *types.Func) bool {
 		return true
 	})
 	return found
+}
+
+// checkWinnerPaths walks every path through one iteration of the attribution loop and asks, for each combination of
+// (number of candidates, number of literal candidates), whether all paths possible under it decide alike. A path condition
+// that is not about those two numbers and separates different decisions means that the winner depends on something else
+// (the state's number, its position, a flag): the documented rule knows the candidates only.
+func checkWinnerPaths(c *Ctx, info *types.Info, loop *ast.RangeStmt, candExpr, strVar string) {
+	type lit struct {
+		e   ast.Expr
+		pol bool
+	}
+	type path struct {
+		conds   []lit
+		attr    []string
+		confl   bool
+		alias   map[string]string
+		done    bool
+	}
+	clone := func(p *path) *path {
+		q := &path{conds: append([]lit{}, p.conds...), attr: append([]string{}, p.attr...), confl: p.confl, alias: map[string]string{}, done: p.done}
+		for k, v := range p.alias {
+			q.alias[k] = v
+		}
+		return q
+	}
+	plain := func(p *path, n ast.Node) {
+		ast.Inspect(n, func(n ast.Node) bool {
+			switch s := n.(type) {
+			case *ast.FuncLit:
+				return false
+			case *ast.AssignStmt:
+				if len(s.Lhs) == 1 && len(s.Rhs) == 1 {
+					if lid, ok := s.Lhs[0].(*ast.Ident); ok {
+						if sel, ok := ast.Unparen(s.Rhs[0]).(*ast.SelectorExpr); ok && sel.Sel.Name == "Terminal" {
+							p.alias[lid.Name] = types.ExprString(sel.X)
+						}
+					}
+					if call, ok := ast.Unparen(s.Rhs[0]).(*ast.CallExpr); ok {
+						if id, ok := call.Fun.(*ast.Ident); ok && id.Name == "append" {
+							if ix, ok := ast.Unparen(s.Lhs[0]).(*ast.IndexExpr); ok {
+								k := types.ExprString(ix.Index)
+								if v, ok := p.alias[k]; ok {
+									k = v
+								} else if sel, ok := ast.Unparen(ix.Index).(*ast.SelectorExpr); ok && sel.Sel.Name == "Terminal" {
+									k = types.ExprString(sel.X)
+								}
+								p.attr = append(p.attr, k)
+							}
+						}
+						if fo, ok := objOf(info, call.Fun).(*types.Func); ok && fo.Name() == "Append" {
+							p.confl = true
+						}
+					}
+				}
+			}
+			return true
+		})
+	}
+	var walk func(list []ast.Stmt, in []*path) []*path
+	walkStmt := func(st ast.Stmt, in []*path) []*path { return walk([]ast.Stmt{st}, in) }
+	walk = func(list []ast.Stmt, in []*path) []*path {
+		cur := in
+		for _, st := range list {
+			var live, dead []*path
+			for _, p := range cur {
+				if p.done {
+					dead = append(dead, p)
+				} else {
+					live = append(live, p)
+				}
+			}
+			if len(live) == 0 || len(live) > 512 {
+				return cur
+			}
+			var next []*path
+			switch s := st.(type) {
+			case *ast.BlockStmt:
+				next = walk(s.List, live)
+			case *ast.IfStmt:
+				if s.Init != nil {
+					for _, p := range live {
+						plain(p, s.Init)
+					}
+				}
+				var yes, no []*path
+				for _, p := range live {
+					a, b := clone(p), clone(p)
+					a.conds = append(a.conds, lit{s.Cond, true})
+					b.conds = append(b.conds, lit{s.Cond, false})
+					yes, no = append(yes, a), append(no, b)
+				}
+				next = walk(s.Body.List, yes)
+				if s.Else != nil {
+					next = append(next, walkStmt(s.Else, no)...)
+				} else {
+					next = append(next, no...)
+				}
+			case *ast.SwitchStmt:
+				if s.Init != nil {
+					for _, p := range live {
+						plain(p, s.Init)
+					}
+				}
+				// clause conditions as expressions: tag == v (or the clause's own expression for a tag-less switch)
+				var prior []ast.Expr
+				var deflt *ast.CaseClause
+				for _, cc := range s.Body.List {
+					cl := cc.(*ast.CaseClause)
+					if cl.List == nil {
+						deflt = cl
+						continue
+					}
+					var cond ast.Expr
+					for _, v := range cl.List {
+						var e ast.Expr = v
+						if s.Tag != nil {
+							e = &ast.BinaryExpr{X: s.Tag, Op: token.EQL, Y: v}
+						}
+						if cond == nil {
+							cond = e
+						} else {
+							cond = &ast.BinaryExpr{X: cond, Op: token.LOR, Y: e}
+						}
+					}
+					var ps []*path
+					for _, p := range live {
+						q := clone(p)
+						for _, pe := range prior {
+							q.conds = append(q.conds, lit{pe, false})
+						}
+						q.conds = append(q.conds, lit{cond, true})
+						ps = append(ps, q)
+					}
+					next = append(next, walk(cl.Body, ps)...)
+					prior = append(prior, cond)
+				}
+				var ps []*path
+				for _, p := range live {
+					q := clone(p)
+					for _, pe := range prior {
+						q.conds = append(q.conds, lit{pe, false})
+					}
+					ps = append(ps, q)
+				}
+				if deflt != nil {
+					next = append(next, walk(deflt.Body, ps)...)
+				} else {
+					next = append(next, ps...)
+				}
+				// a break inside a switch clause leaves the switch only
+				for _, p := range next {
+					if p.done && len(p.attr) >= 0 && p.alias["\x00break"] == "1" {
+						p.done = false
+						delete(p.alias, "\x00break")
+					}
+				}
+			case *ast.BranchStmt:
+				for _, p := range live {
+					p.done = true
+					if s.Tok == token.BREAK && s.Label == nil {
+						p.alias["\x00break"] = "1"
+					}
+				}
+				next = live
+			case *ast.ReturnStmt:
+				for _, p := range live {
+					p.done = true
+					p.confl = true // leaving the construction from inside the loop with a result is a failure report or an early end
+				}
+				next = live
+			default:
+				for _, p := range live {
+					plain(p, st)
+				}
+				next = live
+			}
+			cur = append(dead, next...)
+		}
+		return cur
+	}
+	paths := walk(loop.Body.List, []*path{{alias: map[string]string{}}})
+	if len(paths) == 0 || len(paths) > 512 {
+		c.Undecided("R3.2", "the winner depends on the candidates only", loop.Pos(), fmt.Sprintf("%d paths through one iteration", len(paths)))
+		return
+	}
+	// three-valued evaluation of a condition under (nCand, nStr)
+	var eval func(e ast.Expr, nc, ns int64) int // 1 true, 0 false, -1 unknown
+	lenOf := func(e ast.Expr, nc, ns int64) (int64, bool) {
+		call, ok := ast.Unparen(e).(*ast.CallExpr)
+		if !ok || len(call.Args) != 1 {
+			return 0, false
+		}
+		if id, ok := call.Fun.(*ast.Ident); !ok || id.Name != "len" {
+			return 0, false
+		}
+		switch types.ExprString(call.Args[0]) {
+		case candExpr:
+			return nc, true
+		case strVar:
+			return ns, true
+		}
+		return 0, false
+	}
+	num := func(e ast.Expr, nc, ns int64) (int64, bool) {
+		if v, ok := constInt(info, e); ok {
+			return v, true
+		}
+		return lenOf(e, nc, ns)
+	}
+	eval = func(e ast.Expr, nc, ns int64) int {
+		switch x := ast.Unparen(e).(type) {
+		case *ast.UnaryExpr:
+			if x.Op == token.NOT {
+				if v := eval(x.X, nc, ns); v >= 0 {
+					return 1 - v
+				}
+			}
+		case *ast.BinaryExpr:
+			switch x.Op {
+			case token.LAND:
+				a, b := eval(x.X, nc, ns), eval(x.Y, nc, ns)
+				if a == 0 || b == 0 {
+					return 0
+				}
+				if a == 1 && b == 1 {
+					return 1
+				}
+			case token.LOR:
+				a, b := eval(x.X, nc, ns), eval(x.Y, nc, ns)
+				if a == 1 || b == 1 {
+					return 1
+				}
+				if a == 0 && b == 0 {
+					return 0
+				}
+			case token.EQL, token.NEQ, token.LSS, token.LEQ, token.GTR, token.GEQ:
+				l, ok1 := num(x.X, nc, ns)
+				r, ok2 := num(x.Y, nc, ns)
+				if ok1 && ok2 {
+					var t bool
+					switch x.Op {
+					case token.EQL:
+						t = l == r
+					case token.NEQ:
+						t = l != r
+					case token.LSS:
+						t = l < r
+					case token.LEQ:
+						t = l <= r
+					case token.GTR:
+						t = l > r
+					case token.GEQ:
+						t = l >= r
+					}
+					if t {
+						return 1
+					}
+					return 0
+				}
+			}
+		}
+		return -1
+	}
+	outcome := func(p *path) string {
+		switch {
+		case p.confl && len(p.attr) == 0:
+			return "conflict"
+		case p.confl:
+			return "conflict and attribution"
+		case len(p.attr) == 0:
+			return "nothing"
+		case len(p.attr) == 1:
+			return "-> " + p.attr[0]
+		}
+		return "several attributions"
+	}
+	mentions := func(e ast.Expr) bool {
+		s := types.ExprString(e)
+		return strings.Contains(s, candExpr) || (strVar != "" && strings.Contains(s, strVar))
+	}
+	bad, unclear := "", ""
+	scen := 0
+	for nc := int64(0); nc <= 3; nc++ {
+		for ns := int64(0); ns <= nc; ns++ {
+			scen++
+			outs := map[string][]*path{}
+			for _, p := range paths {
+				possible := true
+				for _, l := range p.conds {
+					v := eval(l.e, nc, ns)
+					if v >= 0 && (v == 1) != l.pol {
+						possible = false
+					}
+				}
+				if possible {
+					outs[outcome(p)] = append(outs[outcome(p)], p)
+				}
+			}
+			if len(outs) <= 1 {
+				continue
+			}
+			// which unknown condition separates them
+			var names []string
+			for o := range outs {
+				names = append(names, o)
+			}
+			sort.Strings(names)
+			foreign, own := "", ""
+			for _, ps := range outs {
+				for _, p := range ps {
+					for _, l := range p.conds {
+						if eval(l.e, nc, ns) < 0 {
+							if mentions(l.e) {
+								own = types.ExprString(l.e)
+							} else {
+								foreign = types.ExprString(l.e)
+							}
+						}
+					}
+				}
+			}
+			msg := fmt.Sprintf("with %d candidate definitions, %d of them literals, the state's fate is one of {%s}", nc, ns, strings.Join(names, "; "))
+			if foreign != "" && own == "" {
+				if bad == "" {
+					bad = msg + " depending on `" + foreign + "`, which is not a fact about the candidates"
+				}
+			} else if unclear == "" {
+				unclear = msg + " depending on `" + own + foreign + "`"
+			}
+		}
+	}
+	key := "the winner of an accepting state depends on its candidate definitions only"
+	switch {
+	case bad != "":
+		c.Fail("R3.2", key, loop.Pos(), bad+": the documented rule (one candidate wins; among several the only literal wins; otherwise a conflict is reported) knows no other input",
+			"two patterns that both match the empty text, e.g. A = /a*/  B = /b*/, or any two overlapping patterns whose common accepting state meets the extra condition")
+	case unclear != "":
+		c.Undecided("R3.2", key, loop.Pos(), unclear)
+	default:
+		c.Pass("R3.2", key, loop.Pos(), fmt.Sprintf("%d paths through one iteration, %d (candidates, literals) combinations, each decided alike on every possible path", len(paths), scen))
+	}
 }
